@@ -6,6 +6,7 @@
 From Coq Require Import ZArith List.
 From M Require Import gen.Consts model.Sizes proofs.SizesProofs proofs.SizesCrossProofs.
 From M Require model.TcpStream model.Wire model.UdpProto.
+From M Require Import base.MiniGo gen.Translated proofs.TranslatedProtocolProofs.
 Import ListNotations.
 Open Scope Z_scope.
 
@@ -90,6 +91,41 @@ Theorem C14_padding_budget : forall mtu frag c1 c2 p1 p2,
   p1 + p2 <= Z.max 0 (mtu - frag - C14_packetOverhead).
 Proof. exact packet_padding_budget. Qed.
 Print Assumptions C14_padding_budget.
+
+(* the SOURCE of maxPaddingSize / maxFragmentSizeInternal as it is now (gen/Translated.v: translated from pkg/protocol by
+   harness/cmd/go2coq on every run, semantics of base/MiniGo.v with Go's int wrapping at 2^63) equals the model's
+   functions wherever no 64-bit wrap can occur (int_small z: -2^61 < z < 2^61; MTUs are 1280..1500, sizes < 2^16) *)
+Theorem C14_source_max_padding_eq_model : forall mtu t frag existing,
+  int_small mtu -> int_small frag -> int_small existing ->
+  xl_protocol_maxPaddingSize mtu t frag existing = max_padding mtu t frag existing.
+Proof. exact xl_maxPaddingSize_eq_model. Qed.
+Print Assumptions C14_source_max_padding_eq_model.
+
+Theorem C14_source_max_fragment_eq_model : forall mtu t, int_small mtu ->
+  xl_protocol_maxFragmentSizeInternal mtu t = max_fragment_internal mtu t.
+Proof. exact xl_maxFragmentSizeInternal_eq_model. Qed.
+Print Assumptions C14_source_max_fragment_eq_model.
+
+(* C14_mtu with the padding maxima computed by the translated source (no traffic pattern: configured maxima only lower
+   them), and each padding within its length byte *)
+Theorem C14_source_mtu_bound : forall mtu mode is_client first n s p1 p2,
+  mtu_ok mtu -> mode_ok mode -> 0 <= n ->
+  emitted is_client first mtu C14_TransportPacket mode n s ->
+  0 <= p1 <= (if is_session (s_kind s) then 0 else xl_protocol_maxPaddingSize mtu C14_TransportPacket (s_plen s) 0) ->
+  0 <= p2 <= xl_protocol_maxPaddingSize mtu C14_TransportPacket (s_plen s) (if is_session (s_kind s) then 0 else p1) ->
+  dgram_len s p1 p2 <= mtu /\ p1 <= C14_MaxUint8 /\ p2 <= C14_MaxUint8.
+Proof. exact xl_mtu_bound. Qed.
+Print Assumptions C14_source_mtu_bound.
+
+(* the same as pure arithmetic over the two translated functions, no model function in the statement *)
+Theorem C14_source_padding_budget : forall mtu frag p1 p2,
+  mtu_ok mtu ->
+  0 <= frag <= xl_protocol_maxFragmentSizeInternal mtu C14_TransportPacket ->
+  0 <= p1 <= xl_protocol_maxPaddingSize mtu C14_TransportPacket frag 0 ->
+  0 <= p2 <= xl_protocol_maxPaddingSize mtu C14_TransportPacket frag p1 ->
+  C14_packetOverhead + frag + p1 + p2 <= mtu /\ p1 <= C14_MaxUint8 /\ p2 <= C14_MaxUint8.
+Proof. exact xl_padding_budget. Qed.
+Print Assumptions C14_source_padding_budget.
 
 (* side conditions on the constants regenerated from /repo *)
 Theorem C14_consts_layout :
